@@ -54,9 +54,34 @@ MODULES = ["stix2.v20.common", "stix2.v20.bundle", "stix2.v20.sdo", "stix2.v20.s
 # ----------------------------------------------------------------------------
 # class enumeration
 
+def class_key(cls):
+    """'v21.sdo.Identity' for a library class; 'custom.v21.Name' for a class built by stix2.custom's builders"""
+    m = cls.__module__
+    if m in MODULES:
+        return m[len("stix2."):] + "." + cls.__name__
+    return "custom.v%s.%s" % (version_of(cls).replace(".", ""), cls.__name__)
+
+
+CUSTOM_MODE = False
+
+
 def all_classes():
     """{key: class} for every _STIXBase subclass with a _properties table that
-    is defined in the v20/v21 modules; key = 'v21.sdo.Identity'."""
+    is defined in the v20/v21 modules; key = 'v21.sdo.Identity'.  In custom mode also the user classes
+    found in the registries."""
+    out = collections.OrderedDict()
+    if CUSTOM_MODE:
+        out = _library_classes()
+        for ver in sorted(stix2.registry.STIX2_OBJ_MAPS):
+            for cat in sorted(stix2.registry.STIX2_OBJ_MAPS[ver]):
+                for t, c in sorted(stix2.registry.STIX2_OBJ_MAPS[ver][cat].items()):
+                    if inspect.isclass(c) and c.__module__ not in MODULES and isinstance(getattr(c, "_properties", None), dict):
+                        out[class_key(c)] = c
+        return out
+    return _library_classes()
+
+
+def _library_classes():
     out = collections.OrderedDict()
     for mn in MODULES:
         mod = importlib.import_module(mn)
@@ -92,11 +117,15 @@ def defining(cls, attr):
 
 
 def init_chain(cls):
-    """every __init__ definition that runs for cls (they all call super), in MRO order."""
+    """every __init__ definition that runs for cls (they all call super), in MRO order.  A class that is not
+    part of the stix2 package (a user class wrapped by a custom builder) is listed as 'user:<name>'."""
     out = []
     for k in cls.__mro__:
         if "__init__" in vars(k) and k.__module__.startswith("stix2"):
             out.append(k.__module__[len("stix2."):] + "." + k.__qualname__)
+        elif "__init__" in vars(k) and k not in (object, collections.abc.Mapping) and not k.__module__.startswith("collections") \
+                and k.__module__ not in ("abc", "typing"):
+            out.append("user:" + k.__qualname__)
     return out
 
 
@@ -361,7 +390,7 @@ def describe():
     for ver, cats in stix2.registry.STIX2_OBJ_MAPS.items():
         reg[ver] = {}
         for cat, m in cats.items():
-            reg[ver][cat] = {t: (c.__module__[len("stix2."):] + "." + c.__name__) for t, c in sorted(m.items())}
+            reg[ver][cat] = {t: class_key(c) for t, c in sorted(m.items())}
     out["registry"] = reg
     # registered extension classes: their _toplevel_properties (None = no such attribute)
     ext_tl = {}
@@ -397,6 +426,7 @@ def describe():
             "check_property": defining(cls, "_check_property"),
             "id_contrib": list(getattr(cls, "_id_contributing_properties", []) or []),
             "base": base, "base_valid": try_construct(cls, base),
+            "with_extension": getattr(cls, "with_extension", None),
         }
     return out
 
@@ -537,6 +567,7 @@ def run_case(case):
     global CLASSES
     op = case["op"]
     allow_custom = bool(case.get("allow_custom", False))
+    interop = bool(case.get("interoperability", False))
     version = case.get("version")
     res = {}
     reg0 = registry_snapshot()
@@ -561,20 +592,23 @@ def run_case(case):
             elif op == "deep" and case.get("via") == "parse_observable":
                 r = stix2.parse_observable(data, [], allow_custom=allow_custom, version=version)
             elif op in ("parse", "deep"):
-                r = stix2.parse(data, allow_custom=allow_custom, version=version)
+                r = stix2.parse(data, allow_custom=allow_custom, interoperability=interop, version=version)
             elif op == "parse_text":
-                r = stix2.parse(data if isinstance(data, str) else json.dumps(data), allow_custom=allow_custom, version=version)
+                r = stix2.parse(data if isinstance(data, str) else json.dumps(data), allow_custom=allow_custom,
+                                interoperability=interop, version=version)
             elif op == "parse_file":
-                r = stix2.parse(io.StringIO(data if isinstance(data, str) else json.dumps(data)), allow_custom=allow_custom, version=version)
+                r = stix2.parse(io.StringIO(data if isinstance(data, str) else json.dumps(data)), allow_custom=allow_custom,
+                                interoperability=interop, version=version)
             elif op == "construct":
                 if CLASSES is None:
                     CLASSES = all_classes()
                 cls = CLASSES[case["cls"]]
                 if not isinstance(data, dict):
                     raise RuntimeError("harness: construct needs a dict")
-                r = cls(allow_custom=allow_custom, **data)
+                r = cls(allow_custom=allow_custom, interoperability=interop, **data)
             elif op == "parse_observable":
-                r = stix2.parse_observable(data, case.get("valid_refs"), allow_custom=allow_custom, version=version)
+                r = stix2.parse_observable(data, case.get("valid_refs"), allow_custom=allow_custom,
+                                           interoperability=interop, version=version)
             elif op == "store_add":
                 r = store.add(data, version=version) if version else store.add(data)
             else:
@@ -663,7 +697,11 @@ def register_custom():
 
 
 def main():
+    global CUSTOM_MODE
     if len(sys.argv) > 1 and sys.argv[1] == "describe":
+        if len(sys.argv) > 2 and sys.argv[2] == "custom":
+            register_custom()
+            CUSTOM_MODE = True
         print(json.dumps(describe()))
         return
     isolate = False
